@@ -336,6 +336,36 @@ class C08Run(object):
                       slot=str(self.slot_at_trigger))
             return
         self.count(self.probes, 'clean_shutdowns_judged')
+        # the quit request that caused the shutdown is answered like any
+        # other request (C06), and before the control socket goes away
+        rq = self.trigger_req
+        if self.trigger_how == 'quit' and rq is not None and not rq.cast:
+            oks = [e for e in rq.replies if isinstance(e[5], dict) and
+                   e[5].get('status') == 'ok']
+            self.count(self.probes, 'quit_reply_checked_%s' % (
+                'waiting' if rq.waiting else 'plain'))
+            if len(oks) != 1 or len(rq.replies) != 1:
+                self.viol('quit_not_answered',
+                          'the accepted quit request (waiting=%s) got %d '
+                          'replies before the daemon closed its control '
+                          'socket: %r' % (rq.waiting, len(rq.replies),
+                                          [e[5] for e in rq.replies][:2]),
+                          waiting=bool(rq.waiting))
+        # so is a restart of the whole daemon handled before the shutdown
+        for r in w.reqs:
+            if r.cmd == 'restart' and not (r.props or {}).get('name') and \
+                    r.accepted and not r.cast and r.disp_t is not None and \
+                    r.disp_t < self.trigger_t - 1e-9 and \
+                    (r.done_t is None or r.done_t < self.trigger_t):
+                self.count(self.probes, 'daemon_restart_reply_checked')
+                if len(r.replies) != 1:
+                    self.viol('daemon_restart_not_answered',
+                              'the accepted restart of the daemon '
+                              '(waiting=%s, dispatched at +%.3f s, shutdown '
+                              'at +%.3f s) got %d replies' %
+                              (r.waiting, r.disp_t - EPOCH,
+                               self.trigger_t - EPOCH, len(r.replies)),
+                              once=r.idx, waiting=bool(r.waiting))
         if self.exit_code != 0:
             self.viol('wrong_exit_status', 'circusd exited with %r after %s'
                       % (self.exit_code, self.trigger_how))
